@@ -10,18 +10,12 @@ HERE = os.path.dirname(os.path.dirname(os.path.abspath(__file__)))
 sys.path.insert(0, HERE)
 
 NA = {
-    "C11": "which cursor column a key resolves to is computed from run-time cursor.description and result maps; no necessary clause is visible in code shape (name bounds/uniqueness are claimed under C21)",
     "C15": "reflection correctness is a property of backend catalog output and per-dialect text parsing; no live PostgreSQL/MariaDB offline and no table relation that is necessary",
     "C17": "closure-variable classification in lambdas is decided at run time from live values/code objects; the only structure is the algorithm itself",
     "C30": "equality of database rows with an object graph after histories is a heap/backend relation; its structural parts are claimed under C31, C32, C34, C48",
-    "C36": "attribute history is value-level difference arithmetic over run-time committed_state",
     "C40": "equality of query results across loader strategies quantifies over rows and object graphs",
     "C41": "ORM-vs-Core result correspondence quantifies over rows",
     "C42": "polymorphic identity of loaded rows quantifies over data and discriminator values",
-    "C45": "merge correctness is about attribute values relative to another object/the database",
-    "C46": "expired/refreshed attribute values relative to the database under external writes",
-    "C53": "routing is whatever user-supplied chooser callables return at run time",
-    "C56": "table state after ON CONFLICT / ON DUPLICATE KEY execution is backend behaviour (cacheability of the constructs is under C02)",
 }
 
 BASELINE = "cd /repo && /venv/bin/python -m pytest -ra -q -p no:cacheprovider --timeout=900 --continue-on-collection-errors"
